@@ -135,7 +135,7 @@ func awkwardAny() []namedValue {
 	out := []namedValue{
 		{"nil", reflect.Zero(anyType)},
 		// values that some `any` parameter gives a meaning to (logger designations)
-		nv(`"stderr"`, "stderr"), nv(`"STDOUT"`, "STDOUT"), nv("int 2", 2), nv("*log.Logger", log.New(io.Discard, "", 0)), nv("live *log.Logger", c11EnvLogger), nv("(*log.Logger)(nil)", (*log.Logger)(nil)),
+		nv(`"stderr"`, "stderr"), nv(`"STDOUT"`, "STDOUT"), nv("int 2", 2), nv("int -1", -1), nv("int 3", 3), nv("MinInt", math.MinInt), nv("MaxInt", math.MaxInt), nv("*log.Logger", log.New(io.Discard, "", 0)), nv("live *log.Logger", c11EnvLogger), nv("(*log.Logger)(nil)", (*log.Logger)(nil)),
 		nv("(*int)(nil)", np), nv("(**string)(nil)", (**string)(nil)), nv("&(*string)(nil)", &nilStr), nv("**int", &pn),
 		nv("(*Stack)(nil)", (*stackage.Stack)(nil)), nv("(*Condition)(nil)", (*stackage.Condition)(nil)), nv("(*StackAlias)(nil)", (*StackAlias)(nil)), nv("(*CondAlias)(nil)", (*CondAlias)(nil)),
 		nv("Stack{}", stackage.Stack{}), nv("Condition{}", stackage.Condition{}), nv("StackAlias{}", StackAlias{}), nv("CondAlias{}", CondAlias{}), nv("&Stack{}", &stackage.Stack{}),
@@ -346,7 +346,13 @@ func extraTuples(method string) []argTuple {
 	switch method {
 	case "Marshal":
 		return []argTuple{mk(`"AND","m"`, "AND", "m"), mk(`"or","m"`, "or", "m"), mk(`"NOT","m"`, "NOT", "m"), mk(`"LIST","m","n"`, "LIST", "m", "n"), mk(`"BASIC",1`, "BASIC", 1),
-			mk(`"CONDITION","k",Eq,"v"`, "CONDITION", "k", stackage.Eq, "v"), mk(`["AND","x"]`, []any{"AND", "x"}), mk(`["OR",["AND","y"]]`, []any{"OR", []any{"AND", "y"}}), mk(`"junk","m"`, "junk", "m")}
+			mk(`"CONDITION","k",Eq,"v"`, "CONDITION", "k", stackage.Eq, "v"), mk(`["AND","x"]`, []any{"AND", "x"}), mk(`["OR",["AND","y"]]`, []any{"OR", []any{"AND", "y"}}), mk(`"junk","m"`, "junk", "m"),
+			// labels in lower and mixed case at every level (what Unmarshal hands out for case-folded stacks)
+			mk(`"list",["and","x"],["Not","z"]`, "list", []any{"and", "x"}, []any{"Not", "z"}), mk(`["or",["and","y"],["condition","k",Eq,["list","e"]]]`, []any{"or", []any{"and", "y"}, []any{"condition", "k", stackage.Eq, []any{"list", "e"}}}),
+			mk("Unmarshal() of a case-folded tree", func() []any {
+				u, _ := stackage.And().SetFold(true).Push("x", stackage.Or().SetFold(true).Push("y", stackage.Not().SetFold(true).Push("z")), stackage.Cond("k", stackage.Eq, stackage.List().SetFold(true).Push("e"))).Unmarshal()
+				return u
+			}()...)}
 	case "Traverse":
 		return []argTuple{mk("1, 1", 1, 1), mk("0, 0", 0, 0), mk("1, 0, 0", 1, 0, 0), mk("2, -1", 2, -1), mk("3, 1", 3, 1), mk("4, 0", 4, 0), mk("5, 1", 5, 1), mk("6, 0", 6, 0),
 			// long paths (deep structures)
